@@ -16,9 +16,10 @@ RUN_LIMIT = 90.0
 
 
 class LedgerLog(dict):
-    def __init__(self, log):
+    def __init__(self, log, glog=None):
         super().__init__()
         self._log, self._lk = log, threading.Lock()
+        self._glog = glog            # the gate log (ledger + condition tokens, see coq/Driver/DriverGate.v); None = not kept
 
     def __setitem__(self, k, v):
         with self._lk:
@@ -26,6 +27,8 @@ class LedgerLog(dict):
             dict.__setitem__(self, k, v)
             if new:
                 self._log.append(ACC)
+                if self._glog is not None and self._glog[0]:
+                    self._glog.append(0)
 
     def pop(self, k, *a):
         with self._lk:
@@ -33,13 +36,81 @@ class LedgerLog(dict):
             r = dict.pop(self, k, *a)
             if had:
                 self._log.append(REL)
+                if self._glog is not None and self._glog[0]:
+                    self._glog.append(1)
             return r
 
     def __len__(self):
         with self._lk:
             n = dict.__len__(self)
             self._log.append(2 + n)
+            if self._glog is not None and self._glog[0]:
+                self._glog.append(10 + n)
             return n
+
+
+def make_logging_condition(glog):
+    """asyncio.Condition whose wait() / notify() are CPython 3.12's own code with log statements added. glog[0] is the on/off
+    switch, tokens are appended after it."""
+    import asyncio
+    from asyncio import exceptions
+
+    class LFuture(asyncio.Future):
+        def cancel(self, msg=None):
+            r = super().cancel(msg)
+            if r and glog[0]:
+                glog.append(8)           # the future a caller waits on is cancelled: notify() skips it from now on
+            return r
+
+    class LoggingCondition(asyncio.Condition):
+        async def wait(self):
+            if not self.locked():
+                raise RuntimeError('cannot wait on un-acquired lock')
+            if glog[0]:
+                glog.append(2)
+            self.release()
+            fut = None
+            try:
+                fut = LFuture(loop=self._get_loop())
+                self._waiters.append(fut)
+                try:
+                    await fut
+                    return_ok = True
+                    return True
+                finally:
+                    self._waiters.remove(fut)
+            finally:
+                cancelled = False
+                while True:
+                    try:
+                        await self.acquire()
+                        break
+                    except exceptions.CancelledError:
+                        cancelled = True
+                import sys
+                leaving = cancelled or sys.exc_info()[0] is not None
+                if glog[0]:
+                    if leaving:
+                        glog.append(5 if (fut is not None and fut.done() and not fut.cancelled()) else 4)
+                    else:
+                        glog.append(3)
+                if cancelled:
+                    raise exceptions.CancelledError
+
+        def notify(self, n=1):
+            if not self.locked():
+                raise RuntimeError('cannot notify on un-acquired lock')
+            idx = 0
+            for fut in self._waiters:
+                if idx >= n:
+                    break
+                if not fut.done():
+                    idx += 1
+                    fut.set_result(False)
+            if glog[0]:
+                glog.append(6 + min(idx, 1))
+
+    return LoggingCondition()
 
 
 _installed = [False]
@@ -54,7 +125,10 @@ def install():
     def enter(self, gather_args=None):
         log = getattr(self, '_verif_ledger_log', None)
         if log is not None:
-            self._uid_to_futures = LedgerLog(log)      # the threads started below capture this object
+            glog = getattr(self, '_verif_gate_log', None)
+            self._uid_to_futures = LedgerLog(log, glog)      # the threads started below capture this object
+            if glog is not None:
+                self._pipeline_notfull = make_logging_condition(glog)
         return orig(self, gather_args)
 
     _server._enter_server = enter
@@ -124,11 +198,13 @@ def _classify(e):
 def run_async(c):
     from mpservice.mpserver import AsyncServer
     log = []
-    res = {'log': log}
+    glog = [True]
+    res = {'log': log, 'glog': glog}
 
     async def main():
         server = AsyncServer(_servlet(c), capacity=c['capacity'])
         server._verif_ledger_log = log
+        server._verif_gate_log = glog
         loop = asyncio.get_running_loop()
         outs = [None] * len(c['callers'])
         async with server:
@@ -161,6 +237,8 @@ def run_async(c):
                 await asyncio.sleep(0.005)
             res['idle_backlog'] = dict.__len__(server._uid_to_futures)
             res['n_log_main'] = len(log)
+            await asyncio.sleep(0.02)          # (the notify() of the last result runs)
+            glog[0] = False                    # the gate log covers the mixed phase; __aexit__ waits on the condition itself
             epi = []
             for k in range(3):
                 try:
@@ -231,6 +309,8 @@ def run_case(c):
     if th.is_alive():
         return {'hung': True}
     r = box['res']
+    if 'glog' in r:
+        r['glog'] = r['glog'][1:]
     if 'log' in r:
         log = r['log']
         b = pk = 0
@@ -296,8 +376,8 @@ def coq_case(r):
     from harness.core import clist, cnat
     c, o = r['cfg'], r['obs']
     if 'log' not in o or 'exit_s' not in o:
-        return '(1, [3], 0, 0)'        # judged by the oracle
-    return f"({cnat(c['capacity'])}, {clist(o['log'], cnat)}, {cnat(o['peak'])}, 1)"
+        return '(1, [3], 0, 0, [])'        # judged by the oracle
+    return f"({cnat(c['capacity'])}, {clist(o['log'], cnat)}, {cnat(o['peak'])}, 1, {clist(o.get('glog') or [], cnat)})"
 
 
 def part(n_quick, n_thorough):
@@ -306,15 +386,17 @@ def part(n_quick, n_thorough):
                      lambda r: (r['oracle'], None) if r['oracle'] else None,
                      lambda r: r['obs'].get('peak', 0) >= r['cfg']['capacity'] and any(x and x[0] == 'rejected' for x in r['obs'].get('outs', [])),
                      key=lambda r: json.dumps(r['cfg'], sort_keys=True),
-                     describe=lambda r: {'cfg': r['cfg'], 'obs': {k: v for k, v in r['obs'].items() if k != 'log'},
-                                         'ledger_operations': len(r['obs'].get('log', []))},
+                     describe=lambda r: {'cfg': r['cfg'], 'obs': {k: v for k, v in r['obs'].items() if k not in ('log', 'glog')},
+                                         'ledger_operations': len(r['obs'].get('log', [])), 'gate_tokens': len(r['obs'].get('glog') or [])},
                      shard=100)
 
 
 BACKLOG_TRUSTED = ('real-run part: AsyncServer (thread and process servlets) and Server over a ProcessServlet run unscheduled with concurrent '
                    'callers (timeouts, backpressure on/off, cancellations, failing requests); the in-flight ledger is a dict subclass that '
                    'performs len / insert / pop under a lock and logs them in that order (installed by wrapping _enter_server in the harness '
-                   'process; no change to the repository); the history is replayed in coq/Model/BacklogSpec.v')
+                   'process; no change to the repository); the history is replayed in coq/Model/BacklogSpec.v. For AsyncServer the condition is a '
+                   'subclass of asyncio.Condition whose wait / notify are CPython 3.12 code plus log statements; ledger and condition tokens together '
+                   'are replayed step by step in coq/Model/AGate.v (Driver/DriverGate.v)')
 
 
 def main(argv):
